@@ -197,8 +197,38 @@ func (r *relayT) loop() {
 			h.dropRsp = true
 			continue
 		}
+		if p == "forged-reply-first" {
+			r.down.WriteToUDP(forgeReply(h.req, h.rsp), from)
+		}
 		r.down.WriteToUDP(h.rsp, from)
 	}
+}
+
+// forgeReply builds what an on-path party without any key can send ahead of the genuine reply: the genuine reply's
+// NTP header, the request's unique identifier, the request's own cookie reflected as a clear-text cookie field, and
+// an authenticator field of the usual shape with arbitrary contents. A client has to reject it (it does not
+// authenticate) and must not keep anything of it.
+func forgeReply(req, rsp []byte) []byte {
+	out := bytes.Clone(rsp[:48])
+	for pos := 48; pos+4 <= len(req); {
+		typ, l := binary.BigEndian.Uint16(req[pos:]), int(binary.BigEndian.Uint16(req[pos+2:]))
+		if l < 4 || pos+l > len(req) {
+			break
+		}
+		if typ == 0x104 || typ == 0x204 {
+			out = append(out, req[pos:pos+l]...)
+		}
+		pos += l
+	}
+	auth := make([]byte, 4+4+16+32)
+	binary.BigEndian.PutUint16(auth, 0x404)
+	binary.BigEndian.PutUint16(auth[2:], uint16(len(auth)))
+	binary.BigEndian.PutUint16(auth[4:], 16)
+	binary.BigEndian.PutUint16(auth[6:], 32)
+	for i := 8; i < len(auth); i++ {
+		auth[i] = byte(i*37) ^ req[40+i%8]
+	}
+	return append(out, auth...)
 }
 
 func (r *relayT) set(plan []string) {
@@ -286,7 +316,7 @@ func open(b []byte, auth field, key []byte) ([]byte, error) {
 
 // ---------------------------------------------------------------- the check
 
-var rec = ev.New("c11/cookie-lifecycle", "rapid state machine: a real IPClient with NTS enabled talks to the real IP listener through a harness relay (the harness's conformant key-exchange server issues cookies sealed with the project's ServerCookie under the provider the listener shares, and names the relay as NTP server); actions exchange {ok, drop request, drop reply} in runs of up to 9 consecutive losses (pool 8 -> 0 -> re-key) and clean runs. The relay parses every datagram with its own extension-field walker. Oracle (model of the pool level L): the call never panics; every request has exactly one cookie field whose cookie was never sent before, 8-L placeholder fields (typed 0x0304, cookie-sized), an authenticator that verifies under C2S, and fits nts.MaxPacketLen; every reply fits, echoes the identifier, verifies under S2C and carries one fresh cookie per cookie/placeholder requested, each opening under a currently valid server key to the session's keys; L never exceeds 8, stays 8 in loss-free operation, and a new key exchange happens exactly when L = 0. One evaluation = one client call. Non-trivial: sequence with a request at L < 8 or a re-key after exhaustion; distinct by loss-pattern hash")
+var rec = ev.New("c11/cookie-lifecycle", "rapid state machine: a real IPClient with NTS enabled talks to the real IP listener through a harness relay (the harness's conformant key-exchange server issues cookies sealed with the project's ServerCookie under the provider the listener shares, and names the relay as NTP server); actions exchange {ok, drop request, drop reply} in runs of up to 9 consecutive losses (pool 8 -> 0 -> re-key) and clean runs; a quarter of the loss-free exchanges have the relay send a forged reply ahead of the genuine one (genuine header and identifier, the request's own cookie reflected as a clear-text cookie field, an authenticator of arbitrary contents). The relay parses every datagram with its own extension-field walker. Oracle (model of the pool level L): the call never panics; every request has exactly one cookie field whose cookie was never sent before, 8-L placeholder fields (typed 0x0304, cookie-sized), an authenticator that verifies under C2S, and fits nts.MaxPacketLen; every reply fits, echoes the identifier, verifies under S2C and carries one fresh cookie per cookie/placeholder requested, each opening under a currently valid server key to the session's keys; L never exceeds 8, stays 8 in loss-free operation, and a new key exchange happens exactly when L = 0. One evaluation = one client call. Non-trivial: sequence with a request at L < 8 or a re-key after exhaustion; distinct by loss-pattern hash")
 
 func TestPropCookieLifecycle(t *testing.T) {
 	vt.Check(t, 100, 500, func(t *rapid.T) {
@@ -315,11 +345,17 @@ func TestPropCookieLifecycle(t *testing.T) {
 				p = rapid.SampledFrom([]string{"drop-request", "drop-reply"}).Draw(t, "loss-kind")
 				runLoss--
 			}
+			if p == "ok" && rapid.IntRange(0, 3).Draw(t, "forged-first") == 0 {
+				p = "forged-reply-first"
+			}
+			if p == "forged-reply-first" {
+				rec.Label("forged-reply-first")
+			}
 			pattern = append(pattern, p)
 			relay.set([]string{p})
 			conns0 := ke.Conns()
 			timeout := 3 * time.Second // generous: only a failing loss-free exchange ever waits this long
-			if p != "ok" {
+			if p != "ok" && p != "forged-reply-first" {
 				timeout = 60 * time.Millisecond
 			}
 			ctx, cancel := context.WithTimeout(context.Background(), timeout)
